@@ -1,7 +1,7 @@
 //! Thick line join.
 
 use crate::{
-    geometry::{Point, PointExt},
+    geometry::Point,
     primitives::{
         common::{LineSide, LinearEquation, StrokeOffset},
         line::intersection_params::{Intersection, IntersectionParams},
@@ -156,22 +156,26 @@ impl LineJoin {
             // Normal line: non-overlapping line end caps
             if !self_intersection {
                 // Distance from midpoint to miter outside end point.
-                let miter_length_squared = Line::new(
+                let miter_delta = Line::new(
                     mid,
                     match outer_side {
                         LineSide::Left => l_intersection,
                         LineSide::Right => r_intersection,
                     },
                 )
-                .delta()
-                .length_squared() as u32;
+                .delta();
+
+                // The miter can be much longer than the lines for sharp corners. The squared
+                // length is calculated using `i64`s, because it might not fit into an `i32`.
+                let miter_length_squared =
+                    i64::from(miter_delta.x).pow(2) + i64::from(miter_delta.y).pow(2);
 
                 // Miter length limit is double the line width (but squared to avoid sqrt() costs)
                 let miter_limit = (width * 2).pow(2);
 
                 // Intersection is within limit at which it will be chopped off into a bevel, so
                 // return a miter.
-                if miter_length_squared <= miter_limit {
+                if miter_length_squared <= i64::from(miter_limit) {
                     let corners = EdgeCorners {
                         left: l_intersection,
                         right: r_intersection,
